@@ -21,6 +21,10 @@ const BaseURL = "http://sim.local"
 
 type ReqPlan struct {
 	Tag        string     `json:"tag"`
+	// ValueTag, when set, replaces Tag in the generated values: a "twin" request carries exactly the same
+	// parameter values (same raw query, same body) as another request of the run, which is what per-value
+	// caches need in order to be hit.
+	ValueTag   string     `json:"value_tag,omitempty"`
 	Kind       int        `json:"kind"` // 0 = typed call through the generated client, 1 = raw bytes on a connection
 	Op         int        `json:"op"`
 	ValueSeed  uint64     `json:"value_seed"`
@@ -124,6 +128,13 @@ func (e *env) trace(ev string) {
 		}
 	}
 	e.res.Stray = append(e.res.Stray, ev)
+}
+
+func (rp *ReqPlan) vtag() string {
+	if rp.ValueTag != "" {
+		return rp.ValueTag
+	}
+	return rp.Tag
 }
 
 func frng(seed uint64, salt uint64) *rand.Rand { return rand.New(rand.NewPCG(seed, salt)) }
@@ -255,7 +266,7 @@ func (e *env) gen(rp *ReqPlan, salt uint64) *values.Gen {
 
 // BuildParams builds the typed parameters of a planned request (deterministic in the plan).
 func BuildParams(p *Pkg, rp *ReqPlan) (reflect.Value, []string) {
-	g := &values.Gen{R: frng(rp.ValueSeed, 1), Tag: rp.Tag, Level: rp.Level, OneOf: p.OneOf, Discr: p.Discr, SetAll: rp.SetAll, NoEmptyStrings: rp.NoEmpty}
+	g := &values.Gen{R: frng(rp.ValueSeed, 1), Tag: rp.vtag(), Level: rp.Level, OneOf: p.OneOf, Discr: p.Discr, SetAll: rp.SetAll, NoEmptyStrings: rp.NoEmpty}
 	v := g.Params(p.Ops[rp.Op].ParamsType)
 	return v, g.Unsupported
 }
